@@ -370,6 +370,106 @@ def r8_4(ctx):
             "a Solver* obtained without GetSolver may be stale", {"callers": callers})
 
 
+def _trie_walk(ix, fn):
+  """Facts about how a PathCacheTrie method walks the trie: root key, the
+  per-level key, and what happens when a child is missing."""
+  from sa.cxx import term, uncast, inner, strip
+  facts = {}
+  params = {p["id"]: p.get("name") for p in fn.params}
+  pnames = [p.get("name") for p in fn.params]
+  # root: &root_[start][finish]
+  for n in cxx.walk(fn.body):
+    if n.get("kind") == "VarDecl" and inner(n):
+      t = term(ix, inner(n)[-1])
+      ts = str(t)
+      if "PathCacheTrie::root_" in ts and "index" in ts:
+        keys = []
+        cur = uncast(t)
+        if isinstance(cur, tuple) and cur[0] == "&":
+          cur = uncast(cur[1])
+        while isinstance(cur, tuple) and cur[0] == "index":
+          k = uncast(cur[2])
+          keys.append(k[1] if isinstance(k, tuple) and k[0] == "var" else str(k))
+          cur = uncast(cur[1])
+        facts["root_keys"] = list(reversed(keys))
+  loops = [n for n in cxx.walk(fn.body) if n.get("kind") == "CXXForRangeStmt"]
+  if len(loops) != 1:
+    raise AnalysisError(f"{fn.key}: expected one loop over the blocked set")
+  kids = inner(loops[0])
+  rng = None
+  for c in kids[:-1]:
+    if c.get("kind") == "DeclStmt" and inner(c) and inner(c)[0].get("name", "").startswith("__range"):
+      rng = uncast(term(ix, inner(inner(c)[0])[-1]))
+  facts["loop_over"] = rng[1] if isinstance(rng, tuple) and rng[0] == "var" else str(rng)
+  lv = inner(kids[-2])[0]
+  body = kids[-1]
+  # child lookup key
+  for n in cxx.walk(body):
+    if n.get("kind") == "CXXMemberCallExpr" and ix.callee(n)[2] == "find":
+      k = uncast(term(ix, inner(n)[1]))
+      facts["child_key"] = ("id-of-loop-var" if isinstance(k, tuple) and k[0] == "mcall"
+                            and "CFGNode::id" in str(k[1]) and uncast(k[2]) == ("var", lv.get("name"), lv["id"])
+                            else str(k))
+  # the missing-child branch
+  for n in cxx.walk(body):
+    if n.get("kind") == "IfStmt":
+      parts = list(inner(n))
+      cond = uncast(term(ix, parts[0]))
+      if isinstance(cond, tuple) and cond[0] == "opcall" and cond[1] == "operator==" and "end" in str(cond):
+        then = parts[1]
+        kinds = [x.get("kind") for x in cxx.walk(then)]
+        if "ReturnStmt" in kinds:
+          ret = [x for x in cxx.walk(then) if x.get("kind") == "ReturnStmt"][0]
+          txt = str(term(ix, inner(ret)[0])) if inner(ret) else ""
+          lits = [x for x in cxx.walk(ret) if x.get("kind") in ("CXXBoolLiteralExpr", "CXXNullPtrLiteralExpr")]
+          facts["missing_child"] = "return-miss" if any(
+              x.get("kind") == "CXXNullPtrLiteralExpr" for x in lits) else "return-other"
+        elif any(x.get("kind") == "CXXMemberCallExpr" and ix.callee(x)[2] in ("insert", "emplace", "try_emplace")
+                 for x in cxx.walk(then)):
+          facts["missing_child"] = "create"
+        elif "BreakStmt" in kinds:
+          facts["missing_child"] = "break"
+        elif "ContinueStmt" in kinds:
+          facts["missing_child"] = "continue"
+        else:
+          facts["missing_child"] = "other"
+  return facts, pnames
+
+
+@rule("R8.5", "C08", floor=4)
+def r8_5(ctx):
+  """The path cache is keyed by exactly (start, finish, blocked set).
+
+  InsertResult and GetResult must walk the trie with the same key sequence
+  (root_[start][finish], then one level per blocked node id, in the set's
+  order); a lookup that meets a missing child must report a miss - returning
+  the result stored for a prefix of the blocked set would make the answer
+  depend on which queries ran before.
+  """
+  ix, *_ = _state(ctx)
+  ins = ix.find("internal::PathCacheTrie::InsertResult")[0]
+  get = ix.find("internal::PathCacheTrie::GetResult")[0]
+  fi, pi = _trie_walk(ix, ins)
+  fg, pg = _trie_walk(ix, get)
+  for name, f, pn in (("InsertResult", fi, pi), ("GetResult", fg, pg)):
+    ok = f.get("root_keys") == pn[:2] and f.get("loop_over") == pn[2] and \
+        f.get("child_key") == "id-of-loop-var"
+    ctx.check(ok, f"{name}:key-sequence", "pytype/typegraph/solver.cc", 0,
+              f"{name} walks root_{f.get('root_keys')}, loops over "
+              f"{f.get('loop_over')} keyed by {f.get('child_key')}; expected "
+              f"root_[{pn[0]}][{pn[1]}], one level per node of {pn[2]} keyed "
+              "by node->id()", f)
+  ctx.check(fi.get("missing_child") == "create", "InsertResult:missing-child-created",
+            "pytype/typegraph/solver.cc", ins.line,
+            f"InsertResult must create the missing trie level; it does: {fi.get('missing_child')}", fi)
+  ctx.check(fg.get("missing_child") == "return-miss", "GetResult:missing-child-is-a-miss",
+            "pytype/typegraph/solver.cc", get.line,
+            "GetResult must return a miss ({false, nullptr}) when a blocked "
+            f"node has no child in the trie; it does: {fg.get('missing_child')} "
+            "- the result cached for a prefix of the blocked set would be "
+            "returned, so answers depend on earlier queries", fg)
+
+
 def _tg(name):
   return f"pytype/typegraph/{name}"
 
@@ -417,4 +517,10 @@ VARIANTS = [
     {"name": "invalidate-keeps-solver-when-no-metrics", "rule": "R8.4", "file": _tg("typegraph.cc"), "expect": "fire",
      "old": "    solver_metrics_.push_back(solver_->CalculateMetrics());\n  }\n  solver_.reset();",
      "new": "    solver_metrics_.push_back(solver_->CalculateMetrics());\n    solver_.reset();\n  }"},
+    {"name": "pathcache-lookup-returns-prefix", "rule": "R8.5", "file": _tg("solver.cc"), "expect": "fire",
+     "old": "    if (it == current_children->end()) {\n      return {false, nullptr};\n    }",
+     "new": "    if (it == current_children->end()) {\n      break;\n    }"},
+    {"name": "pathcache-get-keyed-by-finish-only", "rule": "R8.5", "file": _tg("solver.cc"), "expect": "fire",
+     "old": "                                     const CFGNodeSet& blocked) {\n  TrieNode* current_trie_node = &root_[start][finish];",
+     "new": "                                     const CFGNodeSet& blocked) {\n  TrieNode* current_trie_node = &root_[finish][finish];"},
 ]
